@@ -83,8 +83,44 @@ const (
 	vdPanic = "Panic"
 )
 
-// one evaluation in matching mode
-func msEval(m layer4.ConnMatcher, cx *layer4.Connection) (v string, detail string) {
+// msHangOut receives the report when a matcher does not come back at all
+var msHangOut *vOut
+
+// one evaluation in matching mode, under a watchdog: a matcher that neither returns nor panics
+// within 10 s (they all finish in microseconds) is reported as C04:<matcher>:hang and the run is
+// abandoned, because the spinning goroutine cannot be stopped
+func msEval(m layer4.ConnMatcher, cx *layer4.Connection) (string, string) {
+	type res struct{ v, d string }
+	ch := make(chan res, 1)
+	pre := append([]byte{}, cx.MatchingBytes()...)
+	go func() {
+		v, d := msEvalNow(m, cx)
+		ch <- res{v, d}
+	}()
+	timer := time.NewTimer(10 * time.Second)
+	defer timer.Stop()
+	select {
+	case r := <-ch:
+		return r.v, r.d
+	case <-timer.C:
+		tag := fmt.Sprintf("%T", m)
+		if cm, ok := m.(caddy.Module); ok {
+			id := string(cm.CaddyModule().ID)
+			tag = id[strings.LastIndex(id, ".")+1:]
+		} else if _, ok := m.(*msAny); ok {
+			tag = "anymatch"
+		}
+		if msHangOut != nil {
+			msHangOut.Fail("C04:"+tag+":hang", "Match did not return a verdict or an error within 10 s (it spins)",
+				map[string]any{"matcher": tag, "prefix_hex": fmt.Sprintf("%x", pre)})
+			msHangOut.Close()
+		}
+		os.Exit(1)
+		return vdFail, "hang"
+	}
+}
+
+func msEvalNow(m layer4.ConnMatcher, cx *layer4.Connection) (v string, detail string) {
 	defer func() {
 		if r := recover(); r != nil {
 			v, detail = vdPanic, fmt.Sprint(r)
@@ -913,6 +949,7 @@ func msGenHTTP(r *vRng, i int) msStream {
 func TestVerifMSmall(t *testing.T) {
 	out := vOpen()
 	defer out.Close()
+	msHangOut = out
 	rng := vNewRng(vSeed())
 	n := vN(96)
 	prop := os.Getenv("VERIF_PROP")
@@ -1119,6 +1156,7 @@ func TestVerifMSmall(t *testing.T) {
 		out.Case(term, cls, nt, sample)
 	}
 	counts := map[string]int{}
+	allocFails := map[string]int{}
 	fullVerdicts := map[string]int{}
 	evals := 0
 
@@ -1130,6 +1168,9 @@ func TestVerifMSmall(t *testing.T) {
 			}
 			for i := 0; i < per; i++ {
 				s := cfg.gen(rng, i)
+				if s.heavy && allocFails[mm.tag] >= 6 {
+					continue // unbounded allocation is demonstrated; every further such input costs gigabytes
+				}
 				if len(s.b) > layer4.MaxMatchingBytes {
 					s.b = s.b[:layer4.MaxMatchingBytes]
 				}
@@ -1193,20 +1234,23 @@ func TestVerifMSmall(t *testing.T) {
 					for _, L := range lens {
 						conn := msNewConn(udp)
 						cx := layer4.WrapConnection(conn, append([]byte{}, s.b[:L]...), zap.NewNop())
+						// measured without the watchdog goroutine (this input has already returned once)
 						b0 := msTotalAlloc()
-						msEval(m, cx)
+						msEvalNow(m, cx)
 						e := msTotalAlloc() - b0
-						for try := 0; try < 2 && e > msAllocBound; try++ {
+						// retry only where a concurrent runtime allocation could explain the excess
+						for try := 0; try < 2 && e > msAllocBound && e < 8*msAllocBound; try++ {
 							// measure again on a fresh connection: a concurrent runtime allocation must not count
 							cx = layer4.WrapConnection(msNewConn(udp), append([]byte{}, s.b[:L]...), zap.NewNop())
 							b1 := msTotalAlloc()
-							msEval(m, cx)
+							msEvalNow(m, cx)
 							if e2 := msTotalAlloc() - b1; e2 < e {
 								e = e2
 							}
 						}
 						if e > msAllocBound {
 							big[L] = true
+							allocFails[mm.tag]++
 							out.Fail("C04:"+mm.tag+":alloc", fmt.Sprintf("one Match call allocated %d bytes (bound %d)", e, msAllocBound),
 								map[string]any{"matcher": mm.tag, "config": cfg.coq, "prefix_hex": fmt.Sprintf("%x", s.b[:L]), "class": s.cls})
 						}
